@@ -921,6 +921,26 @@ def run(ctx):
                            opt={'n': nsrc, 'maskmode': 'none', 'errmode': ['none', 'flat', 'random'][m % 3],
                                 'bkgmode': bkgmode, 'bounds': None, 'style': style})
         em.do(case, 'scene-isolated-estimator-or-aperture-flux')
+    # mask x local-background estimator (never combined above): most of the annulus of an isolated
+    # source is masked and holds junk; the estimate must come from the unmasked remainder
+    for m2, model in enumerate(MODELS[:3]):
+        case = _make_scene(rng, 500 + m2, 'isolated', model, 'none', 'truth',
+                           opt={'n': 1, 'maskmode': 'none', 'errmode': 'none', 'bkgmode': 'estimator',
+                                'bounds': None, 'style': 0})
+        if case['bkgmode'] != 'estimator':
+            continue
+        (x0, y0, _f) = case['sources'][0]
+        r_in, r_out = case['lbe']
+        ny_, nx_ = case['shape']
+        junk = []
+        for j in range(ny_):
+            for i in range(nx_):
+                r = math.hypot(i - x0, j - y0)
+                ang = math.atan2(j - y0, i - x0) % (2 * math.pi)
+                if r_in - 1.0 <= r <= r_out + 1.0 and ang < 1.35 * math.pi:
+                    junk.append([j, i])
+        case['maskmode'], case['maskpix'], case['corrupt'] = 'pixels', junk, junk
+        em.do(case, 'scene-isolated-estimator-with-masked-junk-in-the-annulus')
     for key, cnt in em.n.items():
         ctx.note(f'{key}: {cnt} failing checks (at most {em.cap} recorded)')
     ctx.note('checks evaluated per family: ' + json.dumps(em.stats, sort_keys=True))
